@@ -41,6 +41,10 @@ CHECKS = {
  "C11": dict(category="model_checking", engine="buffer-history-driver", technique="deviation-bounded depth-first exploration of buffer-operation histories (12 API calls between yylex calls with exhaustive arguments, pushes from inside actions, yywrap/EOF answers) on the real scanner against one reference scanner per buffer; directed nesting to depth 37",
    text="Histories with up to 3 (quick) / 4 (thorough) non-default choices over yylex, create+switch, create+push, pop, switch, flush, delete, yy_scan_bytes/string/buffer (good and without the two NULs), yyrestart, the include idiom (push from an action) and yywrap popping/switching, in non-reentrant, reentrant and c99 scanners with whole, 1-, 2- and 3-byte reads, -Cf and reject: every token must be the next token of the current buffer's own content at that buffer's own position and beginning-of-line state; reads must be requested only for the current buffer's source; API return values (NULL for a bad yy_scan_buffer, the buffer returned to by pop) are compared; scan_bytes/string must work on a private copy (the caller's array is overwritten after the call).",
    note="Uses the manual forbids or leaves open are not generated; 18 M executions in the quick tier.", design="2/C11"),
+
+ "C02": dict(category="exploration", technique="exhaustive walk of the configuration lattice table{8} x align x 7/8-bit x -I/-B x %pointer/%array x {C, reentrant, C++, c99} x {in-code, --tables-file} (768 points) for a corpus of rule sets, each supported point compiled and run against the reference token stream (inputs of length <= L + transition cover); refusal table for documented unsupported combinations; 120-600 sizable rule sets through each table packer",
+   text="Every lattice point either is refused by flex with a message for a documented reason (full/fast tables with -I, C++ with -CF) or must compile and reproduce, for a corpus of 8-9 rule sets (keywords with back-up, anchors, fixed and variable trailing context, classes, NUL, high bytes, a C-like lexer), the reference token stream on every input up to length L plus the transition cover of each rule set; 27 refusal/acceptance probes (variable trailing context or REJECT with -Cf/-CF/-f/-F, -Cf with -Cm/-CF/-I, -l and -+ conflicts); and 120 (600 thorough) deterministic C-like rule sets, each alone in its own specification, through -CFe/-CF/-Cfe/-Cem/-Cm with their transition covers, to exercise the table packers on sparse states.",
+   note="Differential against the reference, so a defect common to all representations is still seen. Serialized tables only for C scanners (the manual documents them for C); c99 points accepted when refused with a message; operations (yyless, yymore, REJECT) across APIs are C07/C08's job.", design="2/C02"),
 }
 
 NOT_YET = "check under construction in this round; will be claimed once it has run end-to-end on the unchanged tree"
